@@ -246,6 +246,8 @@ theorem pieceOK_byeaster (v : Option (List Int)) (hv : v ≠ some []) :
 /-- a weekday as `__init__` records it: number 0..6, `n` absent or non-zero -/
 def NormalWDay (w : WDay) : Prop := 0 ≤ w.1 ∧ w.1 ≤ 6 ∧ w.2 ≠ some 0
 
+instance : DecidablePred NormalWDay := fun w => by unfold NormalWDay; infer_instance
+
 theorem parseWDay_showWDayStr (w : WDay) (hw : NormalWDay w) : parseWDay (showWDayStr w) = .ok w := by
   obtain ⟨k, n⟩ := w
   obtain ⟨h0, h6, hn⟩ := hw
